@@ -479,8 +479,10 @@ def replay_setorder(cond, args, kwargs):
 from vlib.props.c03 import replay_stream  # noqa: E402,F401
 
 BOUNDS = ["set order: 6 concrete tag scenarios x every iteration order of every set iteration", "header: strings <= 3 chars", "Gap memo: lengths 0..3 x 2 types",
-          "cache and format equivalence: two records, unbounded symbolic numbers"]
-OUTSIDE = ["PYTHONHASHSEED, cwd and logging reconfiguration as PROCESS-level facts (subprocess differential runs are exploration, not solver work)",
+          "cache and format equivalence: two records, unbounded symbolic numbers",
+          "asm-format: two input files, spellings of their paths = symbolic strings of 1-3 code points",
+          "logging across invocations: a model of basicConfig's documented no-op/force contract"]
+OUTSIDE = ["PYTHONHASHSEED and cwd as PROCESS-level facts (subprocess differential runs are exploration, not solver work); the real logging module (a stand-in with basicConfig's contract is used)",
            "buffer-size independence is C13; the 12 real specimens are the repository's own regression tests",
            "exception MESSAGE text that names two tags in iteration order (only the exception type is compared)"]
 TRUSTED = ["CrossHair/z3", "VSet rewrite of set(), set displays and set comprehensions in the analysed modules (loader, option vsets): hash-ordered containers other than sets do not exist in CPython >= 3.7",
